@@ -30,11 +30,43 @@ ImplDayCount(y, m, d) ==
   365 * (y - 1900) + (LeapsBefore(y) - LeapsBefore(1900))
   + Cumul[m] + (IF C!IsLeap(y) /\ m > 2 THEN 1 ELSE 0) + (d - 1)
 
+-----------------------------------------------------------------------------
+(* The shape of Epoch::compute_gregorian (the calendar part: day number -> year, month, day).      *)
+(* div_rem_f64(days, 365): truncated quotient, lowered by one when the truncated remainder is       *)
+(* negative, and that remainder made non-negative; then one day per leap year between 1900 and the *)
+(* estimated year is removed (added before 1900) and the estimate is corrected year by year until   *)
+(* the day of year is in range; the month is found by searching the prefix sums.                    *)
+DivTrunc(a, b) == IF a >= 0 THEN a \div b ELSE -((-a) \div b)
+ImplDivRem(a, b) == LET q == DivTrunc(a, b)  r == a - b * q IN <<IF r < 0 THEN q - 1 ELSE q, IF r < 0 THEN r + b ELSE r>>
+LeapsIn(a, b) == LeapsBefore(b) - LeapsBefore(a)                      \* leap years y with a <= y < b
+LeapDay(y) == IF C!IsLeap(y) THEN 1 ELSE 0
+RECURSIVE FixDown(_, _), FixUp(_, _)
+FixDown(y, diy) == IF diy < 0 THEN FixDown(y - 1, diy + 365 + LeapDay(y - 1)) ELSE <<y, diy>>
+FixUp(y, diy)   == IF diy >= 365 + LeapDay(y) THEN FixUp(y + 1, diy - 365 - LeapDay(y)) ELSE <<y, diy>>
+ImplYearDay(k) == LET qr == ImplDivRem(k, 365)  y0 == qr[1] + 1900 IN
+                    IF y0 >= 1900 THEN FixDown(y0, qr[2] - LeapsIn(1900, y0)) ELSE FixUp(y0, qr[2] + LeapsIn(y0, 1900))
+CumulOf(y, m) == Cumul[m] + (IF C!IsLeap(y) /\ m > 2 THEN 1 ELSE 0)
+(* binary_search: an exact hit at index i (0-based) gives month i + 1, otherwise the insertion point *)
+MonthOf(y, diy) == CHOOSE m \in 1..12 : CumulOf(y, m) <= diy /\ (m = 12 \/ CumulOf(y, m + 1) > diy)
+ImplCivil(k) == LET yd == ImplYearDay(k)  m == MonthOf(yd[1], yd[2]) IN <<yd[1], m, yd[2] - CumulOf(yd[1], m) + 1>>
+(* the algorithm as found: the estimate corrected at most once, and before 1900 without the leap day *)
+(* of the year that is left - refuted below, so that the refinement check is known to discriminate   *)
+OldYearDay(k) == LET qr == ImplDivRem(k, 365)  y0 == qr[1] + 1900 IN
+                    IF y0 >= 1900
+                    THEN LET diy == qr[2] - LeapsIn(1900, y0) IN IF diy < 0 THEN <<y0 - 1, diy + 365 + LeapDay(y0 - 1)>> ELSE <<y0, diy>>
+                    ELSE LET diy == qr[2] + LeapsIn(y0, 1900) IN IF diy >= 365 + LeapDay(y0) THEN <<y0 + 1, diy - 365>> ELSE <<y0, diy>>
+ASSUME OldYearDay(C!N(1601, 1, 1)) # <<1601, 0>>            \* printed as 1601-01-02
+ASSUME OldYearDay(C!N(9999, 12, 31))[1] # 9999
+ASSUME \E y \in 1..393 : OldYearDay(C!N(y, 12, 31)) # <<y, 364 + LeapDay(y)>>
+ASSUME \A y \in {-30000, -4713, -1, 0, 1, 393, 394, 1582, 1899, 1900, 1901, 2000, 3400, 3401, 9999, 10000, 30000}, m \in 1..12 :
+          \A d \in {1, C!DaysInMonth(y, m)} : ImplCivil(C!N(y, m, d)) = <<y, m, d>>
+
 Inverse ==
   LET c == C!CivilOfN(n) IN
     /\ C!ValidDate(c[1], c[2], c[3])
     /\ C!N(c[1], c[2], c[3]) = n
     /\ ImplDayCount(c[1], c[2], c[3]) = n
+    /\ ImplCivil(n) = c
     /\ C!DayOfYear(c[1], c[2], c[3]) \in 1..C!DaysInYear(c[1])
 Successor ==
   [][ LET a == C!CivilOfN(n)  b == C!CivilOfN(n') IN
